@@ -211,6 +211,7 @@ def scalars(cls, key, pattern, skip=()):
 
 # ----------------------------------------------------------------------------- world -> real objects
 GIVEN_PATHS = {}
+_SUBCLASSES = {}
 _SALT = [""]
 
 
@@ -479,7 +480,7 @@ def outcome_of(fn):
         return "raise:" + type(ex).__name__, None
 
 
-def run_cycles(case, workdir: Path):
+def run_cycles(case, workdir: Path, subclass_ok: bool = False):
     """Save / load (fresh call) `cycles` times; returns the observation `out` for C01/C02."""
     tmp = Path(tempfile.mkdtemp(prefix="aoef_", dir=str(workdir)))
     cwd = os.getcwd()
@@ -489,6 +490,13 @@ def run_cycles(case, workdir: Path):
         os.chdir(tmp)
         audio = Path("audio dir") if case.get("audio", "none") == "str" else tmp / "audio dir"
         root, rev, _recs = build_world(case, audio)
+        if subclass_ok and _h(case.get("ctype"), ",".join(sorted(map(str, case.get("sw", [])))), "subclass") % 5 == 0:
+            # the collection handed to save is an instance of a USER SUBCLASS of the collection class (it is saved as that
+            # collection: same document, same objects; it loads as the collection class itself -- C02 only, C01 speaks of the
+            # eight collection types themselves)
+            base = type(root)
+            sub = _SUBCLASSES.setdefault(base, type("My" + base.__name__, (base,), {}))
+            root = sub(**{f: getattr(root, f) for f in base.model_fields})
         adir = {"none": None, "str": str(audio), "path": audio}[case.get("audio", "none")]
         cycles, cur, first_doc, traces = [], root, None, []
         for n in range(case.get("cycles", 1)):
